@@ -2556,6 +2556,10 @@ type repoT struct {
 	mutCurID   uint64
 	mutSavedID uint64
 	mutMu      sync.RWMutex
+
+	// saveMu makes serialising the repo and writing it to the store one step, so that of
+	// two concurrent saves the one that serialised the older state cannot be written last.
+	saveMu sync.Mutex
 }
 
 // newRepo creates a new repository given a UUID, version, and RepoID,
@@ -2909,6 +2913,8 @@ func (r *repoT) saveToStore(db storage.OrderedKeyValueDB) error {
 	if db == nil {
 		return fmt.Errorf("cannot save repo to nil store")
 	}
+	r.saveMu.Lock()
+	defer r.saveMu.Unlock()
 	r.RLock()
 	compression, err := dvid.NewCompression(dvid.LZ4, dvid.DefaultCompression)
 	if err != nil {
